@@ -222,6 +222,55 @@ func ruleSeqLookup(p *Program, r *Result, f *ssa.Function) {
 		}
 	}
 
+	// "new flow" (nil handler, nil error) is answered only on the miss edge of that lookup: a packet of a
+	// session that has an entry can never be treated as the start of a new one
+	{
+		var okV ssa.Value
+		for _, rf := range refsOf(mapLookup) {
+			if e, ok := rf.(*ssa.Extract); ok && e.Index == 1 {
+				okV = e
+			}
+		}
+		nNew, good := 0, true
+		where := ""
+		for _, b := range f.Blocks {
+			ret, isRet := b.Instrs[len(b.Instrs)-1].(*ssa.Return)
+			if !isRet || len(ret.Results) != 2 || b == f.Recover {
+				continue
+			}
+			errNil := true
+			for _, ev := range returnedValues(f, ret, 1) {
+				if !isNilConst(ev) {
+					errNil = false
+				}
+			}
+			if !errNil {
+				continue
+			}
+			allNil := true
+			for _, hv := range returnedValues(f, ret, 0) {
+				if !isNilConst(hv) {
+					allNil = false
+				}
+			}
+			if !allNil {
+				continue
+			}
+			nNew++
+			if okV == nil || !behindFalseEdge(okV, b) {
+				good = false
+				where = p.Pos(ret.Pos())
+			}
+		}
+		if nNew == 0 {
+			r.undecided("R-SEQ", key+":new-flow-only-on-miss", p.Pos(f.Pos()), "the lookup never reports a new flow")
+		} else {
+			r.cond(good, "R-SEQ", key+":new-flow-only-on-miss", p.Pos(mapLookup.Pos()),
+				fmt.Sprintf("'no entry: new flow' (nil handler, nil error) is returned only on the miss edge of the table lookup under the request's session id (%d return)", nNew),
+				"'new flow' (nil handler, nil error) is returned at "+where+" without the table having reported a miss for this session id: a packet of a session that has an entry would be dispatched to the initial handler and registered a second time")
+		}
+	}
+
 	// validator calls: static calls to methods named Validate returning error
 	type vcall struct {
 		call  *ssa.Call
@@ -470,4 +519,32 @@ func ruleSeqErrReturns(p *Program, r *Result, f *ssa.Function, c *ssa.Call, key 
 	r.cond(good && n > 0, "R-SEQ", key, p.Pos(c.Pos()),
 		fmt.Sprintf("every return reachable from the validator's error edge yields (nil handler, non-nil error) (%d returns)", n),
 		"a path from the validator's error edge returns a handler or a nil error: the packet would be dispatched")
+}
+
+// behindFalseEdge: block b is only reachable through the false edge of an If on v (or the true edge of !v).
+func behindFalseEdge(v ssa.Value, b *ssa.BasicBlock) bool {
+	for d := b; d != nil; d = d.Idom() {
+		id := d.Idom()
+		if id == nil {
+			return false
+		}
+		iff, ok := id.Instrs[len(id.Instrs)-1].(*ssa.If)
+		if !ok {
+			continue
+		}
+		cond := iff.Cond
+		neg := false
+		if u, ok := cond.(*ssa.UnOp); ok && u.Op == token.NOT {
+			cond, neg = u.X, true
+		}
+		if cond != v {
+			continue
+		}
+		want := id.Succs[1]
+		if neg {
+			want = id.Succs[0]
+		}
+		return len(want.Preds) == 1 && (want == d || want.Dominates(d))
+	}
+	return false
 }
